@@ -375,7 +375,7 @@ M("C20", "xor-mixed-endian", "utils.py", "int.from_bytes(key, \"little\"), size,
 M("C20", "u32be-no-byteorder", "utils.py", "u32be = partial(unpack, size=4, byteorder=\"big\")", "u32be = partial(unpack, size=4)", "C20.R2")
 M("C20", "p16-size", "utils.py", "p16 = partial(pack, size=2)", "p16 = partial(pack, size=4)", "C20.R2")
 M("C20", "stager-constants-swapped", "utils.py", "    return checksum8(uri) == 92", "    return checksum8(uri) == 93", "C20.R3")
-M("C20", "x64-no-anchor", "utils.py", "re.match(\"^/[A-Za-z0-9]{4}$\", uri)", "re.match(\"^/[A-Za-z0-9]{4}\", uri)", "C20.R3")
+M("C20", "x64-no-anchor", "utils.py", "re.fullmatch(\"/[A-Za-z0-9]{4}\", uri)", "re.match(\"^/[A-Za-z0-9]{4}\", uri)", "C20.R3")
 M("C20", "checksum-mod-255", "utils.py", "    return sum(map(ord, text)) % 256", "    return sum(map(ord, text)) % 255", "C20.R3")
 M("C20", "return-before-classifier", "utils.py", "        uri = \"/\" + \"\".join(random.choice(chars) for _ in range(length))\n        if is_stager(uri):\n            return uri", "        uri = \"/\" + \"\".join(random.choice(chars) for _ in range(length))\n        if is_stager(uri) or length > 8:\n            return uri", "C20.R4")
 M("C20", "staged-gate-removed", "pcap.py", "            if not is_stager:\n                return None\n", "", "C20.R5")
@@ -383,7 +383,7 @@ M("C20", "staged-flag-default-true", "pcap.py", "            elif utils.is_stage
 M("C20", "netbios-nibbles-swapped", "utils.py", "        barray.append(a)\n        barray.append(b)", "        barray.append(b)\n        barray.append(a)", "C20.R6")
 M("C20", "netbios-decode-shift", "utils.py", "        a = (data[i] - offset) << 4", "        a = (data[i] - offset) << 3", "C20.R6")
 T("C20", "twin-decoder-or", "utils.py", "        barray.append(a + b)", "        barray.append(a | b)")
-T("C20", "twin-fullmatch", "utils.py", "re.match(\"^/[A-Za-z0-9]{4}$\", uri)", "re.fullmatch(\"/[A-Za-z0-9]{4}\", uri)")
+T("C20", "twin-fullmatch", "utils.py", "re.fullmatch(\"/[A-Za-z0-9]{4}\", uri)", "re.match(\"^/[A-Za-z0-9]{4}\\Z\", uri)")
 M("C16", "qsl-bytes-regression", "c2.py", "    query = parse_qsl(result.query.decode(\"ascii\"), encoding=\"latin-1\")\n    params = {key.encode(\"latin-1\"): value.encode(\"latin-1\") for key, value in query}", "    params = dict(parse_qsl(result.query))", "C16.R")
 
 # =============================================================================== round-2 rules
